@@ -57,14 +57,16 @@ def corr_cases(ctx, pexpect, n, setlogs=False):
                         'sink': sink, 'rets': rets, 'raw': raw, 'control_bytes': control_bytes})
         # returns: replace None (write) by the byte count the model computes -> compare as model value by re-deriving
         fixed_rets = []
-        wi = 0
         for o, r in zip([o for o in flat_ops(ops) if o[0] not in ('read', 'setlogs')], rets):
-            if r is None:
-                fixed_rets.append(len(wire[wi]) if wi < len(wire) else -1)          # -1: nothing reached the wire for this call
+            if r is None and o[0] == 'control':
+                fixed_rets.append(1)              # sendeof / sendintr return nothing: one control byte
+            elif r is None:
+                # write() returns nothing: the count the model reports for it is the length of the encoded argument
+                fixed_rets.append(len(o[2].encode('utf-8') if o[1] else o[2].encode('latin-1')))
             else:
                 fixed_rets.append(r)
-            wi += 2 if (o[0] == 'sendline' and which == 2) else 1
-        cases.append((inp, [delivered, wire, IO.encode_events(sink), fixed_rets],
+        # what the peer receives is the concatenation of the writes (how many write calls it took is not part of the property)
+        cases.append((inp, [delivered, b''.join(wire), IO.encode_events(sink), fixed_rets],
                       {'transport': which, 'unicode': uni, 'logs': logs, 'ops': [repr(o) for o in ops]}))
     if not setlogs:
         ctx.oracle_stats['io_runs'] = stats
@@ -304,53 +306,55 @@ def send_after_await(ctx, pexpect):
             return
     finally:
         c.close(force=True)
-    # fd transport on a socket pair, the peer reads in a thread
-    a, b = socket.socketpair()
-    f = fdpexpect.fdspawn(a.fileno(), timeout=20)
-    received = []
+    # fd transport and socket transport on a socket pair, the peer reads in a thread
+    from pexpect import socket_pexpect
+    for kind in ('fd', 'socket'):
+        a, b = socket.socketpair()
+        f = fdpexpect.fdspawn(a.fileno(), timeout=20) if kind == 'fd' else socket_pexpect.SocketSpawn(a, timeout=20)
+        received = []
 
-    def reader():
-        total = 0
-        while total < size:
-            d = b.recv(65536)
-            if not d:
-                break
-            total += len(d)
-        received.append(total)
-    try:
-        b.sendall(b'READY')
-
-        async def first2():
-            return await f.expect('READY', async_=True)
-        loop = asyncio.new_event_loop()
+        def reader():
+            total = 0
+            while total < size:
+                d = b.recv(65536)
+                if not d:
+                    break
+                total += len(d)
+            received.append(total)
         try:
-            loop.run_until_complete(first2())
+            b.sendall(b'READY')
+
+            async def first2():
+                return await f.expect('READY', async_=True)
+            loop = asyncio.new_event_loop()
+            try:
+                loop.run_until_complete(first2())
+            finally:
+                loop.close()
+            th = threading.Thread(target=reader)
+            th.start()
+            try:
+                n = f.send(payload)
+            except Exception as e:
+                n = repr(e)
+            th.join(10)
+            if not received or received[0] != size:
+                try:
+                    b.shutdown(socket.SHUT_RDWR)
+                except OSError:
+                    pass
+                th.join(2)
+                ctx.hit('C08/after-await-%s' % kind, '%s transport: after one awaited expect(), send() of %d bytes gave %r and the reading peer received %r' % (kind, size, n, received[:1]), {'size': size})
+                return
         finally:
-            loop.close()
-        th = threading.Thread(target=reader)
-        th.start()
-        try:
-            n = f.send(payload)
-        except Exception as e:
-            n = repr(e)
-        th.join(10)
-        if not received or received[0] != size:
-            try:
-                b.shutdown(socket.SHUT_RDWR)
-            except OSError:
-                pass
-            th.join(2)
-            ctx.hit('C08/after-await-fd', 'fd transport: after one awaited expect(), send() of %d bytes gave %r and the reading peer received %r' % (size, n, received[:1]), {'size': size})
-            return
-    finally:
-        f.child_fd = -1           # the asyncio transport closes its pipe object (the spawn) when it is collected: nothing left to close
-        f.closed = True
-        for s_ in (a, b):
-            try:
-                s_.close()
-            except OSError:
-                pass
-    ctx.oracle_stats['send_after_await'] = 2
+            f.child_fd = -1           # the asyncio transport closes its pipe object (the spawn) when it is collected: nothing left to close
+            f.closed = True
+            for s_ in (a, b):
+                try:
+                    s_.close()
+                except OSError:
+                    pass
+    ctx.oracle_stats['send_after_await'] = 3
 
 
 def real_peer_send(ctx, pexpect):
